@@ -88,3 +88,9 @@ claim('C18', 'fault_enumeration', 'exhaustive single-fault injection: for each o
       'The fault-free run of each workload records the ordered list of allocation requests issued by the library source proper; then every single one of them is made to fail in its own process. A run must not abort or crash, later calls must still work '
       '(dump, print, parse, free) and no library block may remain allocated. The unwind code of ~60 allocation sites is dead unless a fault is injected at exactly that site, so exhaustive enumeration over k is the level; it is complete for these workloads.',
       'Trusts: the workloads as a cover of the public entry points; scanner-internal allocations are out of scope by the property; one fault per run. Known finding: abort() in cfg_init_defaults under OOM (listed in known_findings.json).')
+
+claim('C01', 'exploration', 'exhaustive short token sequences + random schemas/texts/mutations executed by the real parser and compared, tree by tree, with a token-level reference interpreter (history + executable model monitor, ASan+UBSan build)',
+      'Every token sequence to the length bound over a 14-symbol alphabet reaches every (parser state, token kind) pair of the language states; random schemas over all flag combinations x case-insensitive contexts x grammar-derived texts with random '
+      'spellings/layout, their token-mutated forms and multi-text sequences cover the unbounded part. Accept/reject must agree with model_lang and after acceptance the whole tree walk must equal the model. '
+      'The parser is a hand-written state machine, so systematic token enumeration plus randomised schema exploration is the level that reaches its per-state token handling.',
+      'Trusts: model_lang.py (280 lines) as the reading of the language; unspecified corners (trailing commas, path-like names, TITLE without MULTI) are executed but not judged.')
